@@ -67,3 +67,43 @@ func H_C20_3_BeginBlockRing() {
 		verif.Assert("future-or-zero-height-has-zero-hash", ans == (common.Hash{}))
 	}
 }
+
+// H_C01_6_ProcessLifetime: block begin / end processing of the EVM and fee-market-facing keepers performs the same
+// store writes - the same keys in the same order, including re-writes of unchanged values, which an IAVL store
+// turns into new node versions and hence a different application hash - whether the node process has been running
+// since the previous block or was restarted in between (keepers constructed afresh over the same committed
+// stores): two environments execute block h-1 identically; one keeps its keepers, the other is "restarted"; both
+// execute BeginBlock and EndBlock of block h (symbolic height), and the write logs and the contents are compared.
+func H_C01_6_ProcessLifetime() {
+	h := verif.Int64("height")
+	verif.Assume(h >= 2 && h < 1<<62)
+	hdrPrev := [32]byte{0x11, 31: 0x01}
+	hdr := [32]byte{0x7a, 0x11, 31: 0x5c}
+	a, b := env.New(), env.New()
+	for _, e := range []*env.Env{a, b} {
+		prev := e.Ctx.WithBlockHeight(h - 1).WithHeaderHash(hdrPrev[:])
+		e.EK.BeginBlock(prev)
+		e.EK.EndBlock(prev)
+	}
+	verif.Assert("same-state-after-the-previous-block", model.SameContent(a.MS, b.MS))
+	b = b.Restart() // node b is restarted between block h-1 and block h
+	a.MS.ResetWriteLogs()
+	b.MS.ResetWriteLogs()
+	var pa, pb bool
+	for i, e := range []*env.Env{a, b} {
+		ctx := e.Ctx.WithBlockHeight(h).WithHeaderHash(hdr[:])
+		p := verif.Try(func() {
+			e.EK.BeginBlock(ctx)
+			e.EK.EndBlock(ctx)
+		})
+		if i == 0 {
+			pa = p
+		} else {
+			pb = p
+		}
+	}
+	verif.Assert("restart-does-not-change-the-outcome", pa == pb && !pa)
+	verif.Assert("restart-does-not-change-the-store-contents", model.SameContent(a.MS, b.MS))
+	verif.Assert("restart-does-not-change-the-sequence-of-store-writes", model.SameWriteLogs(a.MS, b.MS))
+	verif.Reach("compared")
+}
